@@ -154,9 +154,15 @@ var c15Alphabet = []byte{'\'', '"', '$', '\\', '-', '/', '*', '\n', 'e', 'E', 'a
 func c15Input(maxlen int) string {
 	n := zz.Len("len", maxlen)
 	b := zz.Bytes("sql", n)
+	alphabet := c15Alphabet
+	if zz.Param("alphabet", "") == "dollar" {
+		// a small alphabet for longer inputs around dollar-quoted strings: bodies that
+		// begin with '$' or with the tag text, empty bodies, tags next to quotes
+		alphabet = []byte{'$', 't', 'a', ' ', '\''}
+	}
 	for i := range b {
 		in := false
-		for _, a := range c15Alphabet {
+		for _, a := range alphabet {
 			in = zz.Or(in, b[i] == a)
 		}
 		zz.Assume(in)
